@@ -236,7 +236,11 @@ where
 
     #[cfg(not(feature = "forbid_unsafe"))]
     unsafe fn slice_unchecked(&self, range: Range<usize>) -> Self::Slice<'_> {
-        self.deref().slice_unchecked(range)
+        // `deref()` is safe code and need not return the same target on every call: the
+        // range was validated against the target of an earlier call, so check it again.
+        self.deref()
+            .slice(range)
+            .expect("Source changed between two calls to Deref::deref")
     }
 
     fn is_boundary(&self, index: usize) -> bool {
